@@ -16,7 +16,7 @@
 #![allow(non_camel_case_types, clippy::all)]
 use algebra_mc::core::*;
 use algebra_mc::refmodel::fieldmodel::{prime_to_u64, FieldModel};
-use algebra_mc::refmodel::zmod::from_limbs;
+use algebra_mc::refmodel::zmod::{from_limbs, is_probable_prime};
 use algebra_mc::toycurve::{SwToy, TeToy};
 use ark_ec::hashing::curve_maps::wb::WBConfig;
 use ark_ec::short_weierstrass::{self as sw, SWCurveConfig};
@@ -552,7 +552,7 @@ enum Desc {
     HCoord(usize),
     RCoord(usize),
     /// point of exact order l^j in the l-Sylow subgroup (j = 0: the whole Sylow component of a coordinate point); l^e || h
-    Small { l: u64, e: u32, j: u32, plus_g: bool },
+    Small { l: BigUint, e: u32, j: u32, plus_g: bool },
     /// `extra_pts[k]`
     Extra(usize),
 }
@@ -581,10 +581,11 @@ struct Spec<A: AffineRepr> {
     r: BigUint,
     h: BigUint,
     hinv: BigUint,
-    small: Vec<(u64, u32)>,
+    small: Vec<(BigUint, u32)>,
     descs: Vec<Desc>,
-    /// per-curve case counts by oracle class: identity, subgroup, outside, small-order, skipped; [5] = summed per-case wall milliseconds
-    stats: [AtomicU64; 6],
+    /// per-curve case counts by oracle class: identity, subgroup, outside, small-order, skipped; [5] = summed per-case wall milliseconds;
+    /// [6] = cases on torsion of a prime order >= 2^20
+    stats: [AtomicU64; 7],
 }
 
 trait CurveCases: Sync {
@@ -620,12 +621,46 @@ fn small_primes() -> &'static Vec<u32> {
     })
 }
 
-fn pow_u(l: u64, j: u32) -> BigUint {
+fn pow_u(l: &BigUint, j: u32) -> BigUint {
     let mut x = BigUint::one();
     for _ in 0..j {
         x *= l;
     }
     x
+}
+
+/// Full prime factorisations of cofactors whose large prime factors are out of reach of trial division below 2^20
+/// (decimal).  Every entry is validated at start-up (`validate_known_factorisations`): each factor passes
+/// Miller-Rabin with 40 fixed bases (num-bigint, refmodel::zmod) and the product equals the library's COFACTOR.
+const KNOWN_FACTORISATIONS: [(&str, &[(&str, u32)]); 3] = [
+    ("BLS12-381 G1", &[("3", 1), ("11", 2), ("10177", 2), ("859267", 2), ("52437899", 2)]),
+    (
+        "BLS12-381 G2",
+        &[
+            ("13", 2),
+            ("23", 2),
+            ("2713", 1),
+            ("11953", 1),
+            ("262069", 1),
+            ("402096035359507321594726366720466575392706800671181159425656785868777272553337714697862511267018014931937703598282857976535744623203249", 1),
+        ],
+    ),
+    ("BN254 G2", &[("10069", 1), ("5864401", 1), ("1875725156269", 1), ("197620364512881247228717050342013327560683201906968909", 1)]),
+];
+fn known_factorisation(i: usize) -> (Vec<(BigUint, u32)>, BigUint) {
+    let f: Vec<(BigUint, u32)> = KNOWN_FACTORISATIONS[i].1.iter().map(|(l, e)| (BigUint::parse_bytes(l.as_bytes(), 10).unwrap(), *e)).collect();
+    let prod = f.iter().fold(BigUint::one(), |acc, (l, e)| acc * pow_u(l, *e));
+    (f, prod)
+}
+/// the prime factors >= 2^20 of `h` when `h` is one of the validated cofactors
+fn known_large_primes(h: &BigUint) -> Vec<(BigUint, u32)> {
+    for i in 0..KNOWN_FACTORISATIONS.len() {
+        let (f, prod) = known_factorisation(i);
+        if prod == *h && f.iter().all(|(l, _)| is_probable_prime(l)) {
+            return f.into_iter().filter(|(l, _)| l.bits() > 20).collect();
+        }
+    }
+    Vec::new()
 }
 
 impl<A: AffineRepr> Spec<A> {
@@ -640,10 +675,18 @@ impl<A: AffineRepr> Spec<A> {
                     rest /= l;
                     e += 1;
                 }
-                self.small.push((l as u64, e));
+                self.small.push((BigUint::from(l), e));
             }
             if rest.is_one() {
                 break;
+            }
+        }
+        // large prime factors, from the validated table (only when the table entry IS this cofactor)
+        if !rest.is_one() {
+            for (l, e) in known_large_primes(&self.h) {
+                if (&rest % &l).is_zero() {
+                    self.small.push((l, e));
+                }
             }
         }
         let mut d = vec![Desc::Identity, Desc::GenMul(1), Desc::GenMul(2), Desc::GenMul(3), Desc::GenMul(5), Desc::GenNeg];
@@ -658,11 +701,12 @@ impl<A: AffineRepr> Spec<A> {
             d.push(Desc::Extra(k));
         }
         if self.complete {
-            for &(l, e) in &self.small {
+            for (l, e) in &self.small {
+                let e = *e;
                 for j in 0..=e.min(if light { 1 } else { 4 }) {
-                    d.push(Desc::Small { l, e, j, plus_g: false });
+                    d.push(Desc::Small { l: l.clone(), e, j, plus_g: false });
                     if !(light && j == 0) {
-                        d.push(Desc::Small { l, e, j, plus_g: true });
+                        d.push(Desc::Small { l: l.clone(), e, j, plus_g: true });
                     }
                 }
             }
@@ -689,8 +733,8 @@ impl<A: AffineRepr> Spec<A> {
             Desc::Small { l, e, j, plus_g } => {
                 // project onto the l-Sylow subgroup, S = (n / l^e) * P, walk S, l*S, l^2*S, .. down to O to learn the
                 // exact order l^k of S, then take the multiple of exact order l^j (j = 0: S itself)
-                let cof = &n / pow_u(*l, *e);
-                let lb = BigUint::from(*l);
+                let cof = &n / pow_u(l, *e);
+                let lb = l.clone();
                 let mut found = None;
                 'cand: for cand in self.coord_pts.iter().take(8) {
                     let Some(s) = self.mul(&cand.into_group(), &cof) else { continue };
@@ -745,7 +789,7 @@ where
     fn stats(&self) -> serde_json::Value {
         let v: Vec<u64> = self.stats.iter().map(|a| a.load(Ordering::Relaxed)).collect();
         serde_json::json!({"cases": self.descs.len(), "identity": v[0], "subgroup_point": v[1], "on_curve_not_in_subgroup": v[2], "small_order_point": v[3],
-            "skipped(absent/undefined)": v[4], "case_wall_ms_sum": v[5], "cofactor_small_prime_powers": format!("{:?}", self.small), "cofactor_bits": self.h.bits(), "fast_clearing": self.fast_c.is_some(), "complete_law": self.complete})
+            "skipped(absent/undefined)": v[4], "case_wall_ms_sum": v[5], "large_prime_order_torsion_cases": v[6], "cofactor_small_prime_powers": format!("{:?}", self.small), "cofactor_bits": self.h.bits(), "fast_clearing": self.fast_c.is_some(), "complete_law": self.complete})
     }
     fn floor_missing(&self) -> Option<String> {
         let outside = self.stats[2].load(Ordering::Relaxed);
@@ -755,6 +799,9 @@ where
         }
         // every twisted-Edwards curve has the point (0,-1) of order 2; complete ones and SW curves with a cofactor
         // that has a prime factor below 2^20 get their small-order points from the Sylow constructions
+        if self.small.iter().any(|(l, _)| l.bits() > 20) && self.stats[6].load(Ordering::Relaxed) == 0 {
+            return Some(format!("{}: the cofactor has validated prime factors >= 2^20 but no case on their torsion was run", self.name));
+        }
         if (!self.extra_pts.is_empty() || !self.small.is_empty()) && small == 0 {
             return Some(format!("{}: small-order points exist (cofactor factors {:?}, {} explicit) but no small_order_point case was run", self.name, self.small, self.extra_pts.len()));
         }
@@ -829,6 +876,13 @@ where
         if let Desc::Small { plus_g: false, .. } = desc {
             loc.class("small_order_point");
             self.stats[3].fetch_add(1, Ordering::Relaxed);
+            loc.check_at(&format!("{name}/oracle_sanity"), !ins && !is_id, || format!("{} a non-trivial point of order dividing the cofactor cannot be in the subgroup of order r", d()));
+        }
+        if let Desc::Small { l, plus_g, .. } = desc {
+            if l.bits() > 20 {
+                loc.class(if *plus_g { "large_prime_order_torsion_plus_G" } else { "large_prime_order_torsion" });
+                self.stats[6].fetch_add(1, Ordering::Relaxed);
+            }
         }
         if let Desc::Extra(k) = desc {
             let (_, _, small) = &self.extra_pts[*k];
@@ -1149,6 +1203,21 @@ fn shipped(ctx: &mut Ctx) {
         ctx.validate(&c381_g1 * &c381_g1 == &h1_381 * 3u32, "BLS12-381 G1: (1-x)^2 = 3 h");
         ctx.validate(&c377_g1 * &c377_g1 == &h1_377 * 3u32, "BLS12-377 G1: (x-1)^2 = 3 h");
     }
+    // the hard-coded cofactor factorisations: prime factors (Miller-Rabin, fixed bases) whose product is the shipped COFACTOR
+    {
+        let shipped_h: [(&str, BigUint); 3] = [
+            ("BLS12-381 G1", from_limbs(<ark_bls12_381::g1::Config as CurveConfig>::COFACTOR)),
+            ("BLS12-381 G2", from_limbs(<ark_bls12_381::g2::Config as CurveConfig>::COFACTOR)),
+            ("BN254 G2", from_limbs(<ark_bn254::g2::Config as CurveConfig>::COFACTOR)),
+        ];
+        for (i, (nm, h)) in shipped_h.iter().enumerate() {
+            let (f, prod) = known_factorisation(i);
+            ctx.validate(KNOWN_FACTORISATIONS[i].0 == *nm && prod == *h, &format!("hard-coded factorisation of the cofactor of {nm}: product equals COFACTOR"));
+            ctx.validate(f.iter().all(|(l, _)| is_probable_prime(l)), &format!("hard-coded factorisation of the cofactor of {nm}: every factor is prime (Miller-Rabin, 40 fixed bases)"));
+            ctx.validate(!known_large_primes(h).is_empty(), &format!("hard-coded factorisation of the cofactor of {nm}: has a prime factor above 2^20"));
+        }
+        ctx.assume("cofactor torsion of large prime order: the full factorisations of the cofactors of BLS12-381 G1, BLS12-381 G2 and BN254 G2 are hard-coded (validated at start-up: Miller-Rabin with 40 fixed bases for every factor, product equals the shipped COFACTOR; curves with the same cofactor - the test-curves twins and the SWU isogenous curves - use them too); for every prime l | h the l-Sylow component of up to 8 coordinate points is isolated with the harness's own double-and-add");
+    }
     let mut curves: Vec<Box<dyn CurveCases>> = Vec::new();
     macro_rules! sw {
         ($P:ty, $name:expr) => {
@@ -1250,6 +1319,7 @@ fn shipped(ctx: &mut Ctx) {
 fn main() {
     let mut ctx = Ctx::from_args("C12");
     ctx.require(&["on_curve_not_in_subgroup", "small_order_point", "identity", "subgroup_point", "cofactor_is_one_shortcut", "fast_clearing"]);
+    ctx.require(&["large_prime_order_torsion", "large_prime_order_torsion_plus_G"]);
     ctx.require(&["te_incomplete:torsion_point", "te_incomplete:G_plus_torsion", "clearing_homomorphism_pair", "checked_constructor:out_of_subgroup", "batch_check:one_bad_member"]);
     ctx.require(&["sample:first_draw_geq_modulus", "sample:first_x_not_on_curve", "sample:greatest", "off_curve_pair"]);
     ctx.assume("shipped curves: the membership oracle is r*P == O computed by the harness's own double-and-add over the generic projective `+=`/`double_in_place` (property C03), and point equality is decided on `into_affine()` coordinates");
